@@ -466,7 +466,23 @@ class Engine:
                             objs.append(('none', a)); break
                         objs.append(('obj', oo.base))
                         s.solver.add(z3.Or(z3.ULT(addr, z3.BitVecVal(oo.base, 64)), z3.UGE(addr, z3.BitVecVal(oo.base + max(oo.size, 1), 64))))
-                        if len(objs) > 32: raise EngineError('symbolic pointer with more than 32 candidate objects')
+                        if len(objs) > 32:
+                            # not a choice among a few pointers but an index that can run across many neighbouring objects: the access
+                            # belongs to the lowest-addressed object the address can reach (base + symbolic offset); the bounds check
+                            # below then reports the overrun
+                            low = None
+                            s.solver.pop(); s.solver.push()
+                            for _ in range(64):
+                                if not s.check(): break
+                                a = s.model().eval(addr, model_completion=True).as_long()
+                                oo = s.find(a)
+                                if oo is None: low = None; break
+                                low = oo
+                                s.solver.add(z3.ULT(addr, z3.BitVecVal(oo.base, 64)))
+                            else:
+                                low = None
+                            if low is None: raise EngineError('symbolic pointer with more than 32 candidate objects')
+                            return [('index', low.base)]
                 finally:
                     s.solver.pop()
                 return objs
@@ -474,7 +490,8 @@ class Engine:
             if kind == 'none':
                 s.mem_error('symbolic pointer can address no object', b, n)
             o = s.find(b)
-            s.add_pc(z3.And(z3.UGE(addr, z3.BitVecVal(o.base, 64)), z3.ULT(addr, z3.BitVecVal(o.base + max(o.size, 1), 64))))
+            if kind != 'index':
+                s.add_pc(z3.And(z3.UGE(addr, z3.BitVecVal(o.base, 64)), z3.ULT(addr, z3.BitVecVal(o.base + max(o.size, 1), 64))))
         off = z3.simplify(addr - z3.BitVecVal(o.base, 64))
         if o.size < n:
             s.mem_error('out-of-bounds access (object %s smaller than access)' % o.name, o.base, n)
